@@ -1516,6 +1516,9 @@ class Wtp:
                     self.expand_stack.append("TEMPLATE_NAME")
                     tname = expand_recurse(args[0], parent, expand_all)
                     self.expand_stack.pop()
+                    # The name as it is re-emitted if the call itself is not
+                    # expanded (calls inside the name are expanded only once)
+                    name_arg = tname
 
                     # Remove <noinvoke/>
 
@@ -1570,8 +1573,9 @@ class Wtp:
 
                     if name in self.template_override_funcs and not nowiki:
                         # print("Name in template_overrides: {}".format(name))
-                        new_args = tuple(
-                            expand_recurse(x, parent, expand_all) for x in args
+                        new_args = (name_arg,) + tuple(
+                            expand_recurse(x, parent, expand_all)
+                            for x in args[1:]
                         )
                         parts.append(
                             self.template_override_funcs[name](
@@ -1590,8 +1594,9 @@ class Wtp:
                         # arguments, because those parser functions could
                         # refer to its parent frame and fail if expanded
                         # after eliminating the intermediate templates.
-                        new_args = tuple(
-                            expand_recurse(x, parent, expand_all) for x in args
+                        new_args = (name_arg,) + tuple(
+                            expand_recurse(x, parent, expand_all)
+                            for x in args[1:]
                         )
                         parts.append(
                             self._unexpanded_template(new_args, nowiki)
